@@ -541,7 +541,8 @@ def streams(ctx):
     short = ["x", "x\n", "x # c", "x # c\n", "# c\nx\n", "\n\nx\n", "x\n# c\n", "x\n\n# c\n\n", "x = 1", "x = 1 # c\n", "# c\nx = 1\n# d\n",
              "pass", "pass # c\n", "# c\npass", "x = 1\ny = 2\n", "x = 1\n# c\ny = 2\n", "x;y", "1", "1 # c", "'a'", "'a' # c\n 'b'", "(a, # c\n b)",
              "(\n# c\n1\n)", "if a:\n  # c\n  b\n", "if a: # c\n  b\n# d\n", "def f(): pass # c\n", "match x:\n  # c\n  case _: pass\n",
-             "type X = int # c\n", "# c\ntype X = int\n", "1 +", "x = # c\n", "(", "# c\n)", "x y", "  x", "\n  x\n", "x\n  y\n"]
+             "type X = int # c\n", "# c\ntype X = int\n", "1 +", "x = # c\n", "(", "# c\n)", "x y", "  x", "\n  x\n", "x\n  y\n",
+             "\u00a0", "\n\u3000\n", "\n\x0b\n", "\u0085", " \t", "\x1c", "\u2028", "\u00a0# c", "x\u00a0"]
     ep = [(m, t) for t in tokenless + short + LAYOUT_CORPUS[::2] for m in ("S", "s", "x", "n", "c", "M", "I", "E", "a", "p", "N", "tm", "ti", "te")]
     four_builds("entry-points", ep, "directed",
                 note="%d texts (token-less, comment-only, short statements with trivia) x 14 entry points: typed Parse impls and parse_tokens(lex)" % (len(ep) // 14))
